@@ -35,3 +35,15 @@ Theorem C07_time_abstraction : waits_governor = (@cons Z 7%Z (@cons Z 7%Z (@cons
 Proof. exact w_governor. Qed.
 Check C07_time_abstraction : waits_governor = (@cons Z 7%Z (@cons Z 7%Z (@cons Z 7%Z (@nil Z)))).
 Print Assumptions C07_time_abstraction.
+
+(* the model the theorems above speak about is the source: Governor::next_state as translated from
+   driver/governor.rs on every run (arm table governor_arms in Gen/Consts.v) computes exactly the model function *)
+Require Import GV.Proofs.C07_source.
+Theorem C07_model_is_translated_source : forall idle max sig cmd cmd_rpm a,
+  GV.Gen.Consts.governor_translated = true ->
+  next_state_src idle max sig cmd cmd_rpm a = Some (next_state idle max sig cmd cmd_rpm a).
+Proof. exact next_state_is_the_source. Qed.
+Check C07_model_is_translated_source : forall idle max sig cmd cmd_rpm a,
+  GV.Gen.Consts.governor_translated = true ->
+  next_state_src idle max sig cmd cmd_rpm a = Some (next_state idle max sig cmd cmd_rpm a).
+Print Assumptions C07_model_is_translated_source.
